@@ -74,7 +74,7 @@ def run(module, cfg, workdir, workers=None, dump=None, simulate=None, depth=None
     module_dir = module_dir or SPEC_DIR
     workers = workers or os.environ.get('VERIF_WORKERS') or str(min(16, os.cpu_count() or 4))
     meta = os.path.join(workdir, 'meta-%d' % int(time.time() * 1e6))
-    cmd = ['java', '-XX:+UseParallelGC', '-Xmx6g']
+    cmd = ['java', '-XX:+UseParallelGC', '-Xmx6g', '-Djava.io.tmpdir=' + workdir]      # (TLC unpacks its standard modules there)
     if java_opts:
         cmd += list(java_opts)
     cmd += ['-cp', JAR + ':/opt/veriftools/tla/CommunityModules-deps.jar', 'tlc2.TLC',
